@@ -7,7 +7,7 @@ from typing import Callable, Dict, Iterable, List, Optional, Sequence, Set, Tupl
 
 from ..absval import UNKNOWN, Evaluator
 from ..astutil import attr_chain, call_name, calls_in, const_value, kwarg, unparse, walk_shallow
-from ..cfg import CFG, CNode, Edge, LocalDefs, path_text
+from ..cfg import CFG, CNode, Edge, LocalDefs, expand_test, path_text
 from ..index import AnalysisError, ClassInfo, FuncInfo
 from ..inventory import call_sites, stores_to_attr
 from ..report import Ctx
@@ -692,7 +692,9 @@ def r19_4(ctx: Ctx, agents: List[Tuple[ClassInfo, FuncInfo]]) -> None:
             raise AnalysisError(f"R19.4: {c.short}.selected_kill_chain has no stage-enum default")
         members = ix.enum_members(kc_cls)
         order: List[Tuple[str, int, ast.AST]] = []
-        for st in fn.node.body:
+        # the stage-method call statements, wherever they sit (top level or inside an else arm), in source order
+        stage_stmts_all = sorted((x for x in ast.walk(fn.node) if isinstance(x, ast.Expr)), key=lambda x: (x.lineno, x.col_offset))
+        for st in stage_stmts_all:
             if isinstance(st, ast.Expr) and isinstance(st.value, ast.Call) and isinstance(st.value.func, ast.Attribute) \
                     and unparse(st.value.func.value) == "self":
                 m = ix.find_method(c, st.value.func.attr)
@@ -712,7 +714,12 @@ def r19_4(ctx: Ctx, agents: List[Tuple[ClassInfo, FuncInfo]]) -> None:
         nested = [x for x in ast.walk(fn.node) if isinstance(x, ast.Call) and isinstance(x.func, ast.Attribute) and unparse(x.func.value) == "self"
                   and (lambda mm: mm is not None and not isinstance(mm.node, ast.Lambda) and _guard_stage(en, mm) is not None)(ix.find_method(c, x.func.attr))]
         if len(nested) != len(order):
-            raise AnalysisError(f"R19.4: {fn.short} calls stage methods outside its top-level statement sequence")
+            raise AnalysisError(f"R19.4: {fn.short} calls stage methods inside expressions, not as statements")
+        # they must form one chain in the flow graph: each later call is reachable from the one before it
+        _g = CFG(fn.node)
+        _nodes = [next((nd for nd in _g.nodes if nd.ast is st), None) for _n, _v, st in order]
+        if any(nd is None for nd in _nodes) or any(b.id not in _g.reachable(a) for a, b in zip(_nodes, _nodes[1:])):
+            raise AnalysisError(f"R19.4: the stage-method calls of {fn.short} are not one sequence in the flow graph (exclusive branches)")
         vals = [v for _n, v, _s in order]
         desc = all(a > b for a, b in zip(vals, vals[1:]))
         _response_consulted(ctx, en, fn, [st for _n, _v, st in order])
@@ -783,9 +790,13 @@ def _response_consulted(ctx: Ctx, en: _Enums, fn: FuncInfo, stage_stmts: List[as
 def _guard_stage(en: _Enums, m: FuncInfo) -> Optional[str]:
     """Stage tested by the method's leading `if self.current_kill_chain_stage == <stage>` (or `if not ...: return`)."""
     body = [s for s in m.node.body if not (isinstance(s, ast.Expr) and isinstance(s.value, ast.Constant))]
-    if not body or not isinstance(body[0], ast.If):
+    # the guard may be computed into a local first: skip leading plain assignments to names and read the test through them
+    k = 0
+    while k < len(body) and isinstance(body[k], ast.Assign) and all(isinstance(x, ast.Name) for x in body[k].targets):
+        k += 1
+    if k >= len(body) or not isinstance(body[k], ast.If):
         return None
-    t = body[0].test
+    t = expand_test(LocalDefs(m.node), body[k].test)
     neg = False
     while isinstance(t, ast.UnaryOp) and isinstance(t.op, ast.Not):
         t, neg = t.operand, not neg
